@@ -70,7 +70,7 @@ theorem readItem_damaged (cfg : Cfg) (classes : List Bytes) (T : List Lbl)
     simp only [schemaOfItem, encItem, readItem, encPrim]
     rw [readData_tag_hit cfg _ (Prim.tag_lt _) _ q b old hq ho hb']
     exact ⟨_, _, rfl⟩
-  | .object o cls body, t, tail, pos, R, F, q, b, old, c, hp, hw, hR, hl, hlay, hc, ho, hb => by
+  | .object m o cls body, t, tail, pos, R, F, q, b, old, c, hp, hw, hR, hl, hlay, hc, ho, hb => by
     simp only [WFItem] at hw
     obtain ⟨hcl, hca, hwb⟩ := hw
     simp only [encItem] at hp hl ho
@@ -122,7 +122,7 @@ theorem readItem_damaged (cfg : Cfg) (classes : List Bytes) (T : List Lbl)
       have e5' := readStr_ok cfg cls [] (tagB (Prim.u32).tag ++ (le (Prim.u32).width (idxIn T o) ++
         ((encItems (addUnique t o).1 body).2 ++ tail))) (pos + 4 + 8) R F hcll hca (fun _ => rfl)
       rw [e5']
-      simp only [Res.bind, hcl, ne_eq, not_true_eq_false, ↓reduceIte]
+      simp only [Res.bind, hcl, ne_eq, not_true_eq_false, and_false, ↓reduceIte]
       have e5 := readData_ok cfg (Prim.u32).tag (Prim.tag_lt _) (le (Prim.u32).width (idxIn T o))
         ((encItems (addUnique t o).1 body).2 ++ tail) none (pos + 4 + 8 + (encStr cls).length) R F 4
         (by simp [Prim.width])
@@ -141,7 +141,7 @@ theorem readItem_damaged (cfg : Cfg) (classes : List Bytes) (T : List Lbl)
       simp only [List.length_set, le_length] at hvl
       have hne := toInt64_ne _ _ (by simpa using hvl) hBl hv
       have h6b : (idxIn T o == 0) = false := by simpa using h6
-      simp only [Res.bind, tell, ↓reduceIte, hd, h6b, Bool.or_self, Bool.and_false, Bool.false_eq_true]
+      simp only [Res.bind, tell, ↓reduceIte, hd, h6b, Bool.or_self, Bool.and_false, Bool.false_eq_true, bracket_ite]
       rcases Int.lt_trichotomy (toInt64 (unle ((le 8 (encItems (addUnique t o).1 body).2.length).set (q - 4) b)))
         ((encItems (addUnique t o).1 body).2.length : Int) with h | h | h
       · simp only [gt_iff_lt, h, ↓reduceIte]; exact ⟨_, _, rfl⟩
@@ -156,7 +156,7 @@ theorem readItem_damaged (cfg : Cfg) (classes : List Bytes) (T : List Lbl)
     simp only [le_length] at ho ⊢
     rw [readN_ok cfg (le 8 _) _ none (pos + 4) R F 8 (le_length _ _)]
     simp only [Res.bind]
-    have hSl : (layStr PC.cls cls).length = (encStr cls).length := layStr_length _ _
+    have hSl : (layStr (if m = RMode.poly then PC.pcls else PC.cls) cls).length = (encStr cls).length := layStr_length _ _
     by_cases hq3 : q - 4 - 8 < (encStr cls).length
     · -- inside the class-name string
       rw [List.getElem?_append_left (by omega)] at hlay
@@ -174,6 +174,9 @@ theorem readItem_damaged (cfg : Cfg) (classes : List Bytes) (T : List Lbl)
           (pos + 4 + 8) R F
         rw [hs']; exact ⟨_, _, rfl⟩
       · -- a character of the class name
+        by_cases hm : m = .poly
+        · simp [hm, PC.det] at hc
+        simp only [hm, ↓reduceIte] at hb hc
         rw [readStr_char_hit cfg cls (q - 4 - 8) b hq4 hq5 hcll hca]
         simp only [Res.bind]
         have hj : q - 4 - 8 - 16 < cls.length := by omega
@@ -194,7 +197,7 @@ theorem readItem_damaged (cfg : Cfg) (classes : List Bytes) (T : List Lbl)
         | some c' =>
           have : c' ≠ cls := by
             intro h; rw [h] at hgc; exact hg hgc
-          simp only [ne_eq, this, not_false_eq_true, ↓reduceIte]
+          simp only [ne_eq, hm, this, not_false_eq_true, and_self, ↓reduceIte]
           exact ⟨_, _, rfl⟩
     -- the class name is intact
     have hq3' : (encStr cls).length ≤ q - 4 - 8 := Nat.not_lt.mp hq3
@@ -203,7 +206,7 @@ theorem readItem_damaged (cfg : Cfg) (classes : List Bytes) (T : List Lbl)
     rw [set_append_right _ _ _ _ hq3']
     simp only [List.append_assoc]
     rw [readStr_ok cfg cls [] _ (pos + 4 + 8) R F hcll hca (fun _ => rfl)]
-    simp only [Res.bind, hcl, ne_eq, not_true_eq_false, ↓reduceIte]
+    simp only [Res.bind, hcl, ne_eq, not_true_eq_false, and_false, ↓reduceIte]
     rcases lay_split hlay with ⟨hq4, rfl⟩ | ⟨hq4, hlay⟩
     · -- the tag of the index record
       rw [readData_tag_hit cfg (Prim.u32).tag (Prim.tag_lt _) _ _ b old hq4 ho (bcond_ne (by simp) hb)]
